@@ -658,6 +658,7 @@ class Type2TagMemoryReader(object):
         assert isinstance(tag, Type2Tag)
         self._data_from_tag = bytearray()
         self._data_in_cache = bytearray()
+        self._unconfirmed = set()
         self._tag = tag
 
     def __len__(self):
@@ -698,9 +699,14 @@ class Type2TagMemoryReader(object):
         index = 0
         while index < stop:
             data = self._data_in_cache[index:index+4]
-            if data != self._data_from_tag[index:index+4]:
+            if (data != self._data_from_tag[index:index+4]
+                    or index in self._unconfirmed):
                 self._tag.sector_select(index >> 10)
+                # A write that fails may have been executed by the tag,
+                # the page is written again by the next synchronize().
+                self._unconfirmed.add(index)
                 self._tag.write(index >> 2, data)
+                self._unconfirmed.discard(index)
                 self._data_from_tag[index:index+4] = data
             index += 4
 
